@@ -26,9 +26,11 @@ type c17Case struct {
 	Op2  string `json:"op2,omitempty"`
 	Swap bool   `json:"swap,omitempty"`
 	Unit bool   `json:"unit,omitempty"` // operands built from unit intervals (NewMap has to merge them)
+	U    int    `json:"u,omitempty"`    // universe size (0 = 8)
 }
 
-const c17U = 8
+// c17U is the universe size: 8 in quick, 12 in thorough (set once per run / replay).
+var c17U = 8
 
 func maskIntervals[T constraints.Integer](m int, base T) []interval.Interval[T] {
 	var out []interval.Interval[T]
@@ -201,7 +203,7 @@ func c17Dispatch(c c17Case) *eng.Fail {
 		case "int":
 			return c17Seq[int](c, 0)
 		case "uint64top":
-			return c17Seq[uint64](c, math.MaxUint64-c17U)
+			return c17Seq[uint64](c, math.MaxUint64-uint64(c17U))
 		}
 		return c17Seq[int](c, -4)
 	}
@@ -211,9 +213,9 @@ func c17Dispatch(c c17Case) *eng.Fail {
 	case "intneg":
 		return c17Run[int](c, -4)
 	case "uint64top":
-		return c17Run[uint64](c, math.MaxUint64-c17U) // end of last interval = MaxUint64
+		return c17Run[uint64](c, math.MaxUint64-uint64(c17U)) // end of last interval = MaxUint64
 	case "uint8top":
-		return c17Run[uint8](c, math.MaxUint8-c17U)
+		return c17Run[uint8](c, math.MaxUint8-uint8(c17U))
 	case "int64min":
 		return c17Run[int64](c, math.MinInt64)
 	}
@@ -222,12 +224,16 @@ func c17Dispatch(c c17Case) *eng.Fail {
 
 func init() {
 	checks["C17"] = eng.Check{
-		Rule: "every list of <=3 (quick) / <=4 (thorough) non-empty intervals over an 8-integer universe for NewMap; all 256x256 pairs of sets for union, complement, intersect; at 5 placements (int at 0, int straddling 0, int64 at MinInt64, uint64 and uint8 ending at Max); sequences r1=op1(a,b), r2=op2(a,c) or op2(c,a) over all 64^3 triples of 6-bit sets in 3 relative placements x 9 operator pairs (quick: all pairs involving union, a quarter of the others), operands built directly and from unit intervals that NewMap must merge: the second result is exact and the earlier result and all operands are unchanged. Non-trivial = case whose expected result is a non-empty set and whose operands are both non-empty.",
+		Rule: "every list of <=3 (quick) / <=4 (thorough) non-empty intervals over a universe of 8 (quick) / 12 (thorough) integers for NewMap; all 2^U x 2^U pairs of subsets of the universe for union, complement, intersect; at 5 placements (int at 0, int straddling 0, int64 at MinInt64, uint64 and uint8 ending at Max); sequences r1=op1(a,b), r2=op2(a,c) or op2(c,a) over all 64^3 triples of 6-bit sets in 3 relative placements x 9 operator pairs (quick: all pairs involving union, a quarter of the others), operands built directly and from unit intervals that NewMap must merge: the second result is exact and the earlier result and all operands are unchanged. Non-trivial = case whose expected result is a non-empty set and whose operands are both non-empty.",
 		Assumptions: []string{
 			"interval ends are representable (universe ends at Max, never beyond)",
 			"NewMap receives only non-empty intervals (the property's domain)",
 		},
 		Run: func(r *eng.Run) {
+			c17U = 8
+			if !r.Quick() {
+				c17U = 12
+			}
 			types := []string{"int", "intneg", "int64min", "uint64top", "uint8top"}
 			var ivs [][2]int
 			for b := 0; b < c17U; b++ {
@@ -243,10 +249,10 @@ func init() {
 			for _, ty := range types {
 				ty := ty
 				// pairs
-				r.Par(256, func(a int) {
-					for b := 0; b < 256; b++ {
+				r.Par(1<<c17U, func(a int) {
+					for b := 0; b < 1<<c17U; b++ {
 						for _, op := range []string{"union", "complement", "intersect"} {
-							c := c17Case{Type: ty, Op: op, A: a, B: b}
+							c := c17Case{Type: ty, Op: op, A: a, B: b, U: c17U}
 							f := c17Dispatch(c)
 							r.Eval(1)
 							if a != 0 && b != 0 {
@@ -265,13 +271,13 @@ func init() {
 				n := len(ivs)
 				r.Par(n+1, func(i0 int) {
 					if i0 == n {
-						r.Report(c17Dispatch(c17Case{Type: ty, Op: "newmap"}))
+						r.Report(c17Dispatch(c17Case{Type: ty, Op: "newmap", U: c17U}))
 						r.Eval(1)
 						return
 					}
 					var rec func(l [][2]int)
 					rec = func(l [][2]int) {
-						c := c17Case{Type: ty, Op: "newmap", List: append([][2]int{}, l...)}
+						c := c17Case{Type: ty, Op: "newmap", List: append([][2]int{}, l...), U: c17U}
 						f := c17Dispatch(c)
 						r.Eval(1)
 						if len(l) > 1 {
@@ -306,7 +312,7 @@ func init() {
 										continue
 									}
 									for _, fl := range []struct{ swap, unit bool }{{false, true}, {true, false}} {
-										c := c17Case{Type: []string{"int", "uint64top"}[(a+b)%2], Op: "seq", A: A, B: B, C: C, Op1: o1, Op2: o2, Swap: fl.swap, Unit: fl.unit}
+										c := c17Case{Type: []string{"int", "uint64top"}[(a+b)%2], Op: "seq", A: A, B: B, C: C, Op1: o1, Op2: o2, Swap: fl.swap, Unit: fl.unit, U: c17U}
 										f := c17Dispatch(c)
 										r.Eval(1)
 										r.Nontrivial(1)
@@ -328,6 +334,10 @@ func init() {
 			var c c17Case
 			if err := json.Unmarshal(raw, &c); err != nil {
 				panic(err)
+			}
+			c17U = 8
+			if c.U != 0 {
+				c17U = c.U
 			}
 			return c17Dispatch(c)
 		},
